@@ -855,6 +855,31 @@ matrix_ass_subscr(matrix* self, PyObject* args, PyObject* val)
   if (!val) PY_ERR_INT(PyExc_NotImplementedError,
       "cannot delete matrix entries");
 
+  /* If the matrix is used as its own index set, the indices would be
+     read while they are being overwritten: index with a copy. */
+  if (args == (PyObject *)self || (PyTuple_Check(args) &&
+      PyTuple_GET_SIZE(args) == 2 &&
+      (PyTuple_GET_ITEM(args, 0) == (PyObject *)self ||
+       PyTuple_GET_ITEM(args, 1) == (PyObject *)self))) {
+
+    PyObject *newargs, *cpy;
+    int ret;
+    if (!(cpy = (PyObject *)Matrix_NewFromMatrix(self, id))) return -1;
+    if (args == (PyObject *)self)
+      newargs = cpy;
+    else {
+      PyObject *a0 = PyTuple_GET_ITEM(args, 0);
+      PyObject *a1 = PyTuple_GET_ITEM(args, 1);
+      newargs = PyTuple_Pack(2, (a0 == (PyObject *)self ? cpy : a0),
+          (a1 == (PyObject *)self ? cpy : a1));
+      Py_DECREF(cpy);
+      if (!newargs) return -1;
+    }
+    ret = matrix_ass_subscr(self, newargs, val);
+    Py_DECREF(newargs);
+    return ret;
+  }
+
   if (!(PY_NUMBER(val) || Matrix_Check(val) || SpMatrix_Check(val))) {
 
     if (PyObject_CheckBuffer(val)) 
